@@ -90,6 +90,12 @@ def fold(s):
 
 def holds(cell, op, operand):
     """Does the criterion (op, operand) hold for the cell?"""
+    if is_number(operand) and op in ORDERING and isinstance(cell, str) \
+            and cell != '':
+        # "an ordering criterion only matches cells of its operand's own
+        # type": a text cell - also one that spells a number - is not a
+        # number
+        return False
     ck, ok = kind(cell), ('number' if is_number(operand) else 'text')
     if ck != ok:
         # another type: never equal, never ordered
